@@ -204,7 +204,7 @@ class AppRun:
         os.chdir(wd)
         root_level = logging.getLogger().level
         try:
-            argv = self.argv + ['-P', wd, '--html-parser', 'html5lib', '--quiet',
+            argv = self.argv + ['-P', wd, '--html-parser', 'html5lib', '--very-quiet',
                                 '--no-check-certificate']
             args = AppArgumentParser().parse_args(argv)
             builder = Builder(args, unit_test=True)
